@@ -303,6 +303,10 @@ class Gen:
                             mine = self.route(action, ("ret", snake(b[1])), after=("ret",))
                             raw = self.frame("k-%d" % len(cases), action, valid_reqs[0][1])
                         info = {"tags": b[2]}
+                        if side == "req" and len(cases) % 4 == 2:
+                            # only an after-hook is registered for the action: the CALL is still validated first
+                            mine = {k: v for k, v in mine.items() if k != "on"}
+                            mine.pop("after_first", None)
                         if len(cases) % 2:
                             # another endpoint class of the process declares the SAME handler names for the same action
                             # but opts out of validation (defined before or after ours): that is its business only
